@@ -50,7 +50,7 @@ def tables(out):
     """{definition name: [row strings]} for every `Definition name : list ... := [ ... ].` of the generated files,
     plus scalar definitions as one-element lists"""
     res = {}
-    for fn in ("StateFields.v", "StoreSites.v"):
+    for fn in ("StateFields.v", "StoreSites.v", "OrderSources.v"):
         p = os.path.join(out, fn)
         if not os.path.exists(p):
             continue
@@ -81,10 +81,10 @@ def coq_check(out, scratch):
         shutil.rmtree(scratch)
     os.makedirs(os.path.join(scratch, "theories", "gen"))
     os.makedirs(os.path.join(scratch, "theories", "proofs"))
-    for fn in ("StateFields.v", "StoreSites.v"):
+    for fn in ("StateFields.v", "StoreSites.v", "OrderSources.v"):
         shutil.copy(os.path.join(out, fn), os.path.join(scratch, "theories", "gen", fn))
     shutil.copy(os.path.join(VERIF, "coq", "theories", "proofs", "GenFactsOK.v"), os.path.join(scratch, "theories", "proofs"))
-    for f in ("theories/gen/StateFields.v", "theories/gen/StoreSites.v", "theories/proofs/GenFactsOK.v"):
+    for f in ("theories/gen/StateFields.v", "theories/gen/StoreSites.v", "theories/gen/OrderSources.v", "theories/proofs/GenFactsOK.v"):
         r = subprocess.run(["coqc", "-Q", "theories", "AC", f], cwd=scratch, capture_output=True, text=True, timeout=900)
         if r.returncode != 0:
             msg = (r.stderr or r.stdout).strip().splitlines()
@@ -294,6 +294,30 @@ def m_unknown_stmt(repo):
          "    match growing_season:\n        case True:\n            pass\n        case _:\n            pass\n    NewCond = InitCond\n")
 
 
+def m_set_order(repo):
+    edit(repo, "aquacrop/initialize/read_groundwater_table.py", "import numpy as np", "import numpy as np\n_SEEN = sorted(set(['a', 'b']))")
+
+
+def chk_set_order(rc, msg, base, new):
+    if rc != 0:
+        return False, "translator failed: " + msg[:120]
+    rows = new_rows(base, new, "order_sources")
+    hit = [r for r in rows if "read_groundwater_table" in r and "set()" in r]
+    return bool(hit), ("order_sources +%d: %s" % (len(rows), hit[0]) if hit else "no new order_sources row (%s)" % rows[:3])
+
+
+def m_hash_call(repo):
+    append(repo, "aquacrop/solution/growth_stage.py", "\nimport random as _rnd\n_J = _rnd.random() + hash('x')\n")
+
+
+def chk_hash_call(rc, msg, base, new):
+    if rc != 0:
+        return False, "translator failed: " + msg[:120]
+    rows = new_rows(base, new, "order_sources")
+    ok = any("hash()" in r for r in rows) and any('"random' in r for r in rows)
+    return ok, "order_sources +%d: %s" % (len(rows), rows[:2])
+
+
 MUTATIONS = [
     ("prof_store", "prof.th_s[0] = 0.5 inside drainage", m_prof_store,
      expect_new_site("aquacrop.solution.drainage", "prof", "th_s", "AttrIndex"), "fail"),
@@ -323,6 +347,8 @@ MUTATIONS = [
     ("init_shape", "conditional field in InitialCondition.__init__", m_init_shape, expect_error("InitialCondition.__init__", "If"), None),
     ("unknown_stmt", "match statement in growth_stage (construct without a pattern)", m_unknown_stmt,
      expect_error("Match", "growth_stage"), None),
+    ("set_order", "sorted(set([...])) at module level of read_groundwater_table (hash-seed dependent order)", m_set_order, chk_set_order, "fail"),
+    ("hash_call", "random.random() + hash('x') in growth_stage", m_hash_call, chk_hash_call, "fail"),
     ("refactor", "control: tuple assignment in the reset + a comment (no semantic change)", m_refactor, chk_refactor, "pass"),
 ]
 
